@@ -314,9 +314,21 @@ fn decision_cases<X: Sx>(ctx: &Ctx, r: &mut impl RngCore, l: usize, m: usize) ->
             out.push((format!("identity@{pslot}"), x));
         }
         for &ss in scalar_slots {
+            let rbytes = hex::decode("73eda753299d7d483339d80809a1d80553bda402fffe5bfeffffffff00000001").unwrap();
             let mut x = b.clone();
-            x[ss..ss + 32].copy_from_slice(&hex::decode("73eda753299d7d483339d80809a1d80553bda402fffe5bfeffffffff00000001").unwrap());
+            x[ss..ss + 32].copy_from_slice(&rbytes);
             out.push((format!("scalar=r@{ss}"), x));
+            // the non-canonical alias value + r of the honest scalar (fits in 32 bytes since 2r < 2^256)
+            let mut x = b.clone();
+            let mut carry = 0u16;
+            for k in (0..32).rev() {
+                let s = x[ss + k] as u16 + rbytes[k] as u16 + carry;
+                x[ss + k] = s as u8;
+                carry = s >> 8;
+            }
+            if carry == 0 {
+                out.push((format!("scalar+r@{ss}"), x));
+            }
         }
         out
     };
